@@ -156,7 +156,13 @@ func init() {
 		p := p
 		Registry[p] = func(c *Ctx, tp *tape.Tape, x map[string]any) *Failure {
 			kind := "ASA"
-			if tp.Next(2) == 1 {
+			switch n := tp.Next(8); {
+			case n >= 6 && p != "C14":
+				if n == 7 && nsxConverge != nil {
+					return nsxConverge(p)(c, tp, x)
+				}
+				return panConverge(p)(c, tp, x)
+			case n%2 == 1:
 				kind = "IOS"
 			}
 			return ciscoPlan(kind, p)(c, tp, x)
@@ -216,3 +222,6 @@ func hasRemarks(cs *CiscoCase) bool {
 	}
 	return false
 }
+
+// nsxConverge is set by the NSX checks when they are compiled in.
+var nsxConverge func(prop string) RunFunc
